@@ -18,6 +18,7 @@ from cassis.typesystem import (
     FEATURE_BASE_NAME_SOFA,
     FEATURE_BASE_NAME_TAIL,
     TYPE_NAME_ANNOTATION,
+    TYPE_NAME_ANNOTATION_BASE,
     TYPE_NAME_BOOLEAN,
     TYPE_NAME_BOOLEAN_ARRAY,
     TYPE_NAME_BYTE,
@@ -216,7 +217,7 @@ class CasXmiDeserializer:
                 feature_name = feature.name
                 value = fs[feature_name]
 
-                if feature_name == "sofa":
+                if feature_name == "sofa" and typesystem.is_instance_of(t, TYPE_NAME_ANNOTATION_BASE):
                     fs[feature_name] = sofas[value]
                     continue
 
@@ -353,27 +354,25 @@ class CasXmiDeserializer:
             type_name = type_name[17:]
 
         AnnotationType = typesystem.get_type(type_name)
-        attributes = dict(elem.attrib)
+
+        # Remap features that use a reserved Python name, no matter whether they were given as attributes or as
+        # nested elements
+        def python_name(name: str) -> str:
+            return name + "_" if name in ("self", "type") else name
+
+        attributes = {python_name(name): value for name, value in elem.attrib.items()}
+        children = {python_name(name): value for name, value in children.items()}
         attributes.update(children)
 
         # Map the xmi:id attribute to xmiID
         attributes["xmiID"] = int(attributes.pop("{http://www.omg.org/XMI}id"))
 
-        if "begin" in attributes:
-            attributes["begin"] = int(attributes["begin"])
-
-        if "end" in attributes:
-            attributes["end"] = int(attributes["end"])
-
-        if "sofa" in attributes:
-            attributes["sofa"] = int(attributes["sofa"])
-
-        # Remap features that use a reserved Python name
-        if "self" in attributes:
-            attributes["self_"] = attributes.pop("self")
-
-        if "type" in attributes:
-            attributes["type_"] = attributes.pop("type")
+        # The offsets and the sofa reference of annotations are integers; other types are free to use these
+        # feature names for values of any range, which are parsed according to their range later on
+        if typesystem.is_instance_of(AnnotationType, TYPE_NAME_ANNOTATION_BASE):
+            for name in (FEATURE_BASE_NAME_BEGIN, FEATURE_BASE_NAME_END, FEATURE_BASE_NAME_SOFA):
+                if name in attributes:
+                    attributes[name] = int(attributes[name])
 
         # Arrays which were represented as nested elements in the XMI have so far have only been parsed into a Python
         # arrays. Now we convert them to proper UIMA arrays/lists
